@@ -7,6 +7,7 @@ package main
 import (
 	"context"
 	"crypto/sha256"
+	"encoding/json"
 	"encoding/hex"
 	"errors"
 	"fmt"
@@ -171,6 +172,34 @@ func c19NewWorld(rec *ev.Rec) (*c19World, error) {
 	w := &c19World{rec: rec}
 	w.testdata = filepath.Join(rec.RepoDir, "testdata")
 	w.tmpl = filepath.Join(w.testdata, "testrepo")
+	// the layout the scripts work on is the repository's test layout plus one tag whose manifest is
+	// not stored (a sparse / partially copied layout): index.json lists c19-dangling, blobs/ lacks it
+	{
+		t2 := filepath.Join(rec.Scratch, "tmpl")
+		os.RemoveAll(t2)
+		if err := c19CopyTree(w.tmpl, t2); err != nil {
+			return nil, err
+		}
+		ib, err := os.ReadFile(filepath.Join(t2, "index.json"))
+		if err != nil {
+			return nil, err
+		}
+		var idx map[string]json.RawMessage
+		var ms []json.RawMessage
+		if err := json.Unmarshal(ib, &idx); err != nil {
+			return nil, err
+		}
+		if err := json.Unmarshal(idx["manifests"], &ms); err != nil {
+			return nil, err
+		}
+		ms = append(ms, json.RawMessage(fmt.Sprintf(`{"mediaType":"application/vnd.oci.image.manifest.v1+json","digest":"sha256:%x","size":321,"annotations":{"org.opencontainers.image.ref.name":"c19-dangling"}}`, sha256.Sum256([]byte("c19 dangling")))))
+		idx["manifests"], _ = json.Marshal(ms)
+		ib, _ = json.Marshal(idx)
+		if err := os.WriteFile(filepath.Join(t2, "index.json"), ib, 0o644); err != nil {
+			return nil, err
+		}
+		w.tmpl = t2
+	}
 	w.work = filepath.Join(rec.Scratch, "w")
 	w.guard = filepath.Join(w.work, "layouts")
 	w.outDir = filepath.Join(w.work, "out")
